@@ -150,12 +150,17 @@ def render_gen(cfg) -> str:
     """cfg["comp"] in ("clkdiv", "toggle")"""
     pw = cfg.get("port_width", 3)
     s = _HEAD + "class Top(cohdl.Entity):\n"
-    s += "    clk = Port.input(Bit)\n    en = Port.input(Bit)\n    dis = Port.input(Bit)\n"
+    s += "    clk = Port.input(Bit)\n    en = Port.input(Bit)\n    dis = Port.input(Bit)\n    rst = Port.input(Bit)\n"
     s += f"    d0 = Port.input(Unsigned[{pw}])\n    d1 = Port.input(Unsigned[{pw}])\n"
     s += "    o_state = Port.output(Bit)\n    o_rise = Port.output(Bit)\n    o_fall = Port.output(Bit)\n"
     s += "    o_cbr = Port.output(Bit, default=False)\n    o_cbf = Port.output(Bit, default=False)\n\n"
     s += "    def architecture(self):\n"
-    s += f"        ctx = std.SequentialContext({_clock(cfg)})\n\n"
+    cr = cfg.get("ctx_reset")  # None | high | low | high_async | low_async : reset of the context the generator is built from
+    if cr:
+        kw_r = (", active_low=True" if cr.startswith("low") else "") + (", is_async=True" if cr.endswith("async") else "")
+        s += f"        ctx = std.SequentialContext({_clock(cfg)}, std.Reset(self.rst{kw_r}))\n\n"
+    else:
+        s += f"        ctx = std.SequentialContext({_clock(cfg)})\n\n"
     s += "        def on_r():\n            self.o_cbr ^= True\n\n        def on_f():\n            self.o_cbf ^= True\n\n"
     kw = ""
     if cfg.get("default_state"):
